@@ -301,8 +301,9 @@ def run_prop(ctx, prop):
             if ok or rep["final"] is None:
                 raise tlc.MachineryError("counterexample of %s replayed into the code gives an accurate P %s" % (name, rep["final"]))
             ctx.count("model_counterexamples_reproduced_on_code")
+            from .algocheck import cone_class
             sig = "inaccurate|%s|%s|cone=%s" % (I["code"]["alg"], I["code"].get("type") or ("empirical" if I["code"].get("empirical") else I["Kind"]),
-                                                 "orth" if I["W"] == O else "pyobt" if I["W"] == PYO else str(I["W"]))
+                                                 cone_class(I["W"]))
             ctx.violation(sig, {"instantiation": name, "truth": mu, "behaviour": [_jstate(s) for s in res.trace], "code_P": rep["final"]},
                           "%s: with valid displayed regions in every round the real %s returns P=%s for truths %s: %s" % (name, I["code"]["alg"], rep["final"], mu, why))
             ctx.nontriv(("cex", name))
@@ -369,6 +370,8 @@ def run_prop(ctx, prop):
             if not ok:
                 ctx.violation("inaccurate-replay|%s" % name, {"instantiation": name, "truth": rep["mu"], "code_P": rep["final"],
                               "behaviour": [_jstate(s) for s in states]}, "%s: %s" % (name, why))
+    from . import algocheck
+    algocheck.accuracy_runs(ctx, prop)
     ctx.extra["behaviours_replayed"] = len(jobs)
     ctx.extra["behaviours_reaching_termination"] = done
     ctx.extra["instantiations"] = names
